@@ -1043,6 +1043,61 @@ fn run_genuine_case(fx: &Fx, seed: u64, i: u64, acc: &mut Acc) {
   }
 }
 
+/// The initiator is an implementation that chooses the other key agreement algorithm the specification allows,
+/// DH+MODP-2048-256: its request is the genuine one with c.kagree_algo, dh1 and hash_c1 replaced, its final is
+/// built with the toolkit and signed with the initiator's own (CA-issued) key. The RustDDS replier must complete
+/// and hold the secret the initiator computes in that group.
+fn run_modp_initiator_case(fx: &Fx, seed: u64, i: u64, acc: &mut Acc) {
+  let mut rng = Rng::derive(seed, ST_GENUINE ^ 0x40, i);
+  let pairs = [(0usize, 1usize), (1, 0), (0, 2), (2, 0), (1, 2), (2, 1)];
+  let (x, y) = pairs[(i % 6) as usize];
+  let case = json!({"seed": seed, "stream": ST_GENUINE ^ 0x40, "index": i});
+  acc.evaluations += 1;
+  let r = (|| -> Result<(Vec<u8>, Vec<u8>, bool), String> {
+    let mut s = setup(fx, x, y, &mut rng, None)?;
+    let (_hs_i, req) = s.request()?;
+    let key = auth::ModpKey::generate()?;
+    let mut req2 = req.clone();
+    for (n, v) in req2.bprops.iter_mut() {
+      match n.as_str() {
+        "c.kagree_algo" => *v = b"DH+MODP-2048-256".to_vec(),
+        "dh1" => *v = key.public(),
+        _ => {}
+      }
+    }
+    let c1: Vec<(String, Vec<u8>)> = ["c.id", "c.perm", "c.pdata", "c.dsign_algo", "c.kagree_algo"].iter().map(|n| bp(n, getp(&req2, n))).collect();
+    let h = auth::forge_hash(&c1)?;
+    for (n, v) in req2.bprops.iter_mut() {
+      if n == "hash_c1" {
+        *v = h.clone();
+      }
+    }
+    let (hs_r, rep) = s.reply(&req2)?;
+    let dh2 = getp(&rep, "dh2");
+    let in_group = key.in_subgroup(&dh2);
+    let fin = forge_final(&fx.gen[s.ini_id].key, &req2, &rep)?;
+    s.done(hs_r, &fin)?;
+    let theirs = s.rep.shared_secret(s.h_r2i).map(|x| x.0).ok_or("the replier holds no shared secret after the final message")?;
+    let mine = key.shared_secret(&dh2)?;
+    Ok((theirs, mine, in_group))
+  })();
+  match r {
+    Err(e) => acc.violate("C19/genuine:modp-2048-256-initiator:handshake-failed", json!({"error": e}), json!({"case": case, "identities": [fx.gen[x].name, fx.gen[y].name]})),
+    Ok((theirs, mine, in_group)) => {
+      if theirs != mine {
+        acc.violate(
+          "C19/genuine:modp-2048-256-initiator:shared-secrets-differ",
+          json!({"replier": hex(&theirs), "initiator": hex(&mine), "repliers_dh2_is_in_the_2048_256_subgroup": in_group}),
+          json!({"case": case, "identities": [fx.gen[x].name, fx.gen[y].name]}),
+        );
+      } else {
+        acc.count("genuine_handshakes_completed_with_modp_2048_256_initiator", 1);
+        acc.distinct.insert(fnv64(&mine));
+      }
+    }
+  }
+}
+
 // ------------------------------------------------------------------ positive controls for the forger's toolkit
 
 /// A message built with the toolkit by somebody who *has* a CA-issued identity and uses the GUID
@@ -1101,7 +1156,7 @@ pub fn run_c19(args: &Args) -> i32 {
   let mut rep = Report::new(
     args,
     "three identities issued by the shipped Identity CA (committed fixtures), every unordered pair, roles as the GUID order dictates. \
-     genuine: request -> reply -> final between fresh plugin instances, also repeated on the same instances, interleaved with a third party, and with an AuthRequest token. \
+     genuine: request -> reply -> final between fresh plugin instances, also repeated on the same instances, interleaved with a third party, and with an AuthRequest token; and with an initiator of another implementation that chooses DH+MODP-2048-256 (genuine request with c.kagree_algo, dh1, hash_c1 replaced, final built with the toolkit and signed with its CA-issued key): the replier's shared secret must be the one the initiator computes in the RFC 5114 2048/256 group. \
      forgery/no-dos: a catalogue enumerated completely in every round: for each of the three receiver states (replier awaiting request, initiator awaiting reply, replier awaiting final) \
      x {every binary property of the message due in that state x (random same length, truncated, emptied, swapped with the same property of another session of the same pair / of a third-party session, removed, duplicated with another value, 3 sampled single-bit flips); \
      class_id changed 6 ways; request/reply/final recorded in another session of the same pair or in a third-party session; messages of this session delivered where they are not due; made-up tokens; \
@@ -1169,10 +1224,16 @@ pub fn run_c19(args: &Args) -> i32 {
   // ---- genuine
   let n_gen = args.scale(2_400, 72_000);
   let g = par_cases(args.threads(), n_gen, |i, acc| {
-    if replay_case.map_or(false, |rc| rc != i || replay_stream != Some(ST_GENUINE)) {
+    let (is_gen, is_modp) = (replay_stream.map_or(true, |s| s == ST_GENUINE), replay_stream.map_or(true, |s| s == ST_GENUINE ^ 0x40));
+    if replay_case.map_or(false, |rc| rc != i) {
       return;
     }
-    guarded(acc, ST_GENUINE, i, &|acc| run_genuine_case(&fx, seed, i, acc));
+    if is_gen {
+      guarded(acc, ST_GENUINE, i, &|acc| run_genuine_case(&fx, seed, i, acc));
+    }
+    if is_modp && i % 4 == 0 {
+      guarded(acc, ST_GENUINE ^ 0x40, i, &|acc| run_modp_initiator_case(&fx, seed, i, acc));
+    }
   });
   acc.merge(g);
   // ---- forgery / no-dos: whole catalogue per round
@@ -1187,6 +1248,7 @@ pub fn run_c19(args: &Args) -> i32 {
   acc.merge(f);
   if replay_case.is_none() {
     rep.require("genuine_handshakes_completed", 2000);
+    rep.require("genuine_handshakes_completed_with_modp_2048_256_initiator", 300);
     rep.require("repeated_handshakes_completed", 300);
     rep.require("interleaved_handshakes_completed", 300);
     rep.require("forged_messages_rejected", 20_000);
